@@ -97,7 +97,7 @@ theorem Reach.last_lister {σ : Store α}
       exact ⟨m, rm, .step hr hk h1, h2, h3, h4⟩
 
 theorem sumSizes_eq {σ : Store α} : ∀ (ks : List Nat) (ts : List Tree), AbsL σ ks ts →
-    (∀ k ∈ ks, ∀ tk, Abs σ k tk → sizeOf σ k = tk.size) → sumSizes σ ks = Tree.sizeL ts
+    (∀ k ∈ ks, ∀ tk, Abs σ k tk → Store.sizeOf σ k = tk.size) → sumSizes σ ks = Tree.sizeL ts
   | [], [], _, _ => rfl
   | [], _ :: _, h, _ => by simp [AbsL] at h
   | _ :: _, [], h, _ => by simp [AbsL] at h
@@ -105,5 +105,152 @@ theorem sumSizes_eq {σ : Store α} : ∀ (ks : List Nat) (ts : List Tree), AbsL
     simp only [AbsL] at h
     simp only [sumSizes, Tree.sizeL]
     rw [hs k List.mem_cons_self t h.1, sumSizes_eq ks ts h.2 (fun k' hk' => hs k' (List.mem_cons_of_mem _ hk'))]
+
+end FV
+
+namespace FV
+open Store
+variable {α : Type} {Hc : Sym → Option String → Option String → List α → α}
+
+theorem sho_set {σ : Store α} {j : Nat} {r : NodeRec α} (hr : σ[j]? = some r) (n : Nat) (h : Option α) :
+    SizeHashOnly σ (σ.set j { r with hashC := h, sizeC := n }) := by
+  refine ⟨List.length_set, fun a r0 hr0 => ?_⟩
+  by_cases hja : j = a
+  · subst hja
+    rw [hr] at hr0; cases hr0
+    have hlt := (List.getElem?_eq_some_iff.mp hr).1
+    exact ⟨{ r with hashC := h, sizeC := n }, by rw [List.getElem?_set_self hlt], ⟨rfl, rfl, rfl, rfl⟩, rfl, rfl, rfl⟩
+  · exact ⟨r0, by rw [List.getElem?_set_ne hja]; exact hr0, SameCore.rfl' r0, rfl, rfl, rfl⟩
+
+/-- one iteration of `invalidate_hash` at `j` repairs `j` and leaves every node that does not reach `j` alone -/
+theorem pre_step_good {σ : Store α} {j : Nat} {r : NodeRec α} (hp : Pre Hc σ j) (hr : σ[j]? = some r)
+    (i : Nat) (ri : NodeRec α) (t : Tree)
+    (hri : (σ.set j { r with hashC := none, sizeC := 1 + sumSizes σ r.kids })[i]? = some ri)
+    (hv : ri.view = false)
+    (ha : Abs (σ.set j { r with hashC := none, sizeC := 1 + sumSizes σ r.kids }) i t)
+    (hg : i = j ∨ ¬ Reach σ i j) :
+    ri.sizeC = t.size ∧ ∀ h, ri.hashC = some h → h = hashT Hc t := by
+  have sho := sho_set hr (1 + sumSizes σ r.kids) none
+  have ha' : Abs σ i t := sho.abs.mpr ha
+  by_cases hij : i = j
+  · subst hij
+    have hlt := (List.getElem?_eq_some_iff.mp hr).1
+    rw [List.getElem?_set_self hlt] at hri
+    cases hri
+    refine ⟨?_, fun h hh => by simp at hh⟩
+    cases t with
+    | mk s a rr ts =>
+      have ha'' := ha'
+      simp only [Abs] at ha''
+      obtain ⟨rec, h1, _, _, _, h5⟩ := ha''
+      rw [hr] at h1; cases h1
+      simp only [Tree.size]
+      congr 1
+      apply sumSizes_eq _ _ h5
+      intro k hk tk htk
+      obtain ⟨rc, hrc, _, hvc⟩ := hp.par i _ k hr hv hk
+      have hnr : ¬ Reach σ k i := not_reach_of_kid hr hk ha'
+      have := hp.size k rc tk hrc hvc htk hnr
+      simp only [Store.sizeOf, hrc]; exact this
+  · have hnr : ¬ Reach σ i j := by
+      rcases hg with h | h
+      · exact absurd h hij
+      · exact h
+    rw [List.getElem?_set_ne (Ne.symm hij)] at hri
+    exact ⟨hp.size i ri t hri hv ha' hnr, fun h hh => hp.hash i ri t h hri hv ha' hnr hh⟩
+
+theorem pre_step {σ : Store α} {j : Nat} {r : NodeRec α} (hp : Pre Hc σ j) (hr : σ[j]? = some r) :
+    (r.parent = none → Inv Hc (σ.set j { r with hashC := none, sizeC := 1 + sumSizes σ r.kids })) ∧
+    (∀ p, r.parent = some p →
+      Pre Hc (σ.set j { r with hashC := none, sizeC := 1 + sumSizes σ r.kids }) p) := by
+  have sho := sho_set hr (1 + sumSizes σ r.kids) none
+  have hlen : (σ.set j { r with hashC := none, sizeC := 1 + sumSizes σ r.kids }).length = σ.length := sho.1
+  have hwf : ∀ i, i < (σ.set j { r with hashC := none, sizeC := 1 + sumSizes σ r.kids }).length →
+      ∃ t, Abs (σ.set j { r with hashC := none, sizeC := 1 + sumSizes σ r.kids }) i t := by
+    intro i hi
+    obtain ⟨t, ht⟩ := hp.wf i (hlen ▸ hi)
+    exact ⟨t, sho.abs.mp ht⟩
+  have hparIn : ∀ (i : Nat) (ri : NodeRec α) (p : Nat),
+      (σ.set j { r with hashC := none, sizeC := 1 + sumSizes σ r.kids })[i]? = some ri →
+      ri.parent = some p → p < (σ.set j { r with hashC := none, sizeC := 1 + sumSizes σ r.kids }).length := by
+    intro i ri p hri hpp
+    obtain ⟨r0, hr0, _, hp0, _, _⟩ := sho.symm.2 i ri hri
+    rw [hlen]; exact hp.parIn i r0 p hr0 (hp0 ▸ hpp)
+  have hpar : ∀ (i : Nat) (ri : NodeRec α) (c : Nat),
+      (σ.set j { r with hashC := none, sizeC := 1 + sumSizes σ r.kids })[i]? = some ri →
+      ri.view = false → c ∈ ri.kids →
+      ∃ rc, (σ.set j { r with hashC := none, sizeC := 1 + sumSizes σ r.kids })[c]? = some rc ∧
+        rc.parent = some i ∧ rc.view = false := by
+    intro i ri c hri hv hc
+    obtain ⟨r0, hr0, hc0, _, hv0, _⟩ := sho.symm.2 i ri hri
+    obtain ⟨rc, hrc, hpc, hvc⟩ := hp.par i r0 c hr0 (hv0 ▸ hv) (hc0.2.2.2 ▸ hc)
+    obtain ⟨rc', hrc', _, hpc', hvc', _⟩ := sho.2 c rc hrc
+    exact ⟨rc', hrc', hpc' ▸ hpc, hvc' ▸ hvc⟩
+  -- a non-view node that reaches `j` from strictly above is listed … by the parent of `j`
+  have hlister : ∀ (i : Nat) (ri : NodeRec α),
+      (σ.set j { r with hashC := none, sizeC := 1 + sumSizes σ r.kids })[i]? = some ri →
+      ri.view = false → i ≠ j → Reach σ i j → ∃ m, r.parent = some m ∧ Reach σ i m := by
+    intro i ri hri hv hij hreach
+    obtain ⟨r0, hr0, _, _, hv0, _⟩ := sho.symm.2 i ri hri
+    obtain ⟨m, rm, h1, h2, h3, h4⟩ := hreach.last_lister hp.par hij r0 hr0 (hv0 ▸ hv)
+    obtain ⟨rc, hrc, hpc, _⟩ := hp.par m rm j h2 h3 h4
+    rw [hr] at hrc; cases hrc
+    exact ⟨m, hpc, h1⟩
+  constructor
+  · intro hnone
+    refine ⟨hwf, hparIn, ?_, ?_, hpar⟩
+    · intro i ri t hri hv ha
+      refine (pre_step_good hp hr i ri t hri hv ha ?_).1
+      by_cases hij : i = j
+      · exact .inl hij
+      · refine .inr (fun hreach => ?_)
+        obtain ⟨m, hm, _⟩ := hlister i ri hri hv hij hreach
+        rw [hnone] at hm; cases hm
+    · intro i ri t h hri hv ha hh
+      refine (pre_step_good hp hr i ri t hri hv ha ?_).2 h hh
+      by_cases hij : i = j
+      · exact .inl hij
+      · refine .inr (fun hreach => ?_)
+        obtain ⟨m, hm, _⟩ := hlister i ri hri hv hij hreach
+        rw [hnone] at hm; cases hm
+  · intro p hpp
+    refine ⟨hwf, hparIn, ?_, ?_, hpar⟩
+    · intro i ri t hri hv ha hnr
+      refine (pre_step_good hp hr i ri t hri hv ha ?_).1
+      by_cases hij : i = j
+      · exact .inl hij
+      · refine .inr (fun hreach => ?_)
+        obtain ⟨m, hm, hrm⟩ := hlister i ri hri hv hij hreach
+        rw [hpp] at hm; cases hm
+        exact hnr (sho.reach.mp hrm)
+    · intro i ri t h hri hv ha hnr hh
+      refine (pre_step_good hp hr i ri t hri hv ha ?_).2 h hh
+      by_cases hij : i = j
+      · exact .inl hij
+      · refine .inr (fun hreach => ?_)
+        obtain ⟨m, hm, hrm⟩ := hlister i ri hri hv hij hreach
+        rw [hpp] at hm; cases hm
+        exact hnr (sho.reach.mp hrm)
+
+/-- **`invalidate_hash` re-establishes the invariant**: started at the edited node `j` in a state where
+only the nodes above `j` are stale, the walk up the parent chain ends in an `Inv` state and changes
+nothing but cached sizes / hashes. -/
+theorem invalidate_inv : ∀ (fuel : Nat) (σ : Store α) (j : Nat) (σ' : Store α), Pre Hc σ j →
+    invalidate fuel σ j = .ok σ' → Inv Hc σ' ∧ SizeHashOnly σ σ'
+  | 0, _, _, _, _, h => by simp [invalidate] at h
+  | fuel + 1, σ, j, σ', hp, h => by
+    simp only [invalidate] at h
+    split at h
+    · cases h
+    · rename_i r hr
+      have hs := pre_step hp hr
+      have sho := sho_set hr (1 + sumSizes σ r.kids) none
+      split at h
+      · rename_i hpn
+        cases h
+        exact ⟨hs.1 hpn, sho⟩
+      · rename_i p hpp
+        obtain ⟨hi, hsho⟩ := invalidate_inv fuel _ p σ' (hs.2 p hpp) h
+        exact ⟨hi, sho.trans hsho⟩
 
 end FV
